@@ -518,6 +518,23 @@ fn conformance(req: &J) -> J {
     J::Object(out)
 }
 
+/// equality of two policies / templates given as text with the same id: {a, b, template: bool} -> {equal: bool}
+fn policy_eq(req: &J) -> J {
+    let id = cedar_policy::PolicyId::new("p0");
+    let (a, b) = (req["a"].as_str().unwrap_or(""), req["b"].as_str().unwrap_or(""));
+    if req["template"].as_bool().unwrap_or(false) {
+        match (cedar_policy::Template::parse(Some(id.clone()), a), cedar_policy::Template::parse(Some(id), b)) {
+            (Ok(x), Ok(y)) => json!({"equal": x == y}),
+            (x, y) => json!({"parse_error": format!("{:?} {:?}", x.err().map(|e| e.to_string()), y.err().map(|e| e.to_string()))}),
+        }
+    } else {
+        match (cedar_policy::Policy::parse(Some(id.clone()), a), cedar_policy::Policy::parse(Some(id), b)) {
+            (Ok(x), Ok(y)) => json!({"equal": x == y}),
+            (x, y) => json!({"parse_error": format!("{:?} {:?}", x.err().map(|e| e.to_string()), y.err().map(|e| e.to_string()))}),
+        }
+    }
+}
+
 fn handle(req: &J) -> J {
     match req["op"].as_str().unwrap_or("") {
         "eval" => eval(req),
@@ -528,6 +545,7 @@ fn handle(req: &J) -> J {
         "peval" => peval(req),
         "validate_level" => validate_level(req),
         "conformance" => conformance(req),
+        "policy_eq" => policy_eq(req),
         other => json!({"unknown_op": other}),
     }
 }
